@@ -24,6 +24,7 @@ MODULE_CASES = [
 class PROP(c10.PROP):
     id = "C18"
     mismatch_is_failure = False
+    audit_modules = ["C18"]
     theorems = ["C18_no_direct_output_outside_front_end", "C18_lexer_parser_silent", "C18_channel_is_used"]
     prop_targets = ["theories/Props/C18.vo"]
     trusted_base = [
